@@ -217,6 +217,8 @@ class Path:
         env = {k: (v.copy() if isinstance(v, (DictV, SetV)) else v) for k, v in self.env.items()}
         p = Path({k: s.copy() for k, s in self.mgrs.items()}, env, self.pc + ([cond] if cond is not None else []))
         p.trace = list(self.trace)
+        if getattr(self, 'ref_empty', False):
+            p.ref_empty, p.ref_written = True, list(getattr(self, 'ref_written', []))
         return p
 
 
@@ -688,6 +690,8 @@ class Exec:
         raise Unsupported(f'read {attr}@{line}')
 
     def ev_Attribute(self, e, p):
+        if isinstance(e.value, ast.Name) and e.value.id == 'sys' and e.attr == 'maxsize' and 'sys' not in p.env:
+            return IntV(IntVal(2 ** 63 - 1))
         mv = self.mgr_of_expr(e.value, p)
         if mv is not None:
             S = p.mgrs[mv.key]
@@ -1036,7 +1040,9 @@ class Exec:
                 return v.copy()
         if e.args or e.keywords:
             raise Unsupported('dict(...)')
-        return self.empty_dict(e)
+        d = self.empty_dict(e)
+        d.fresh_empty = True
+        return d
 
     def empty_dict(self, e, vkind='int', kkind='int'):
         ks = {'int': I, 'name': M.Name, 'fork': Fork}[kkind]
@@ -1261,6 +1267,10 @@ class Exec:
                 if meth == 'setdefault' and fld == '_ref' and len(args) == 2:
                     kz = zint(args[0], self, p)
                     # _ref.setdefault(u, c): only used for the terminal in _init_terminal
+                    if getattr(p, 'ref_empty', False):
+                        S.ref = Store(S.ref, kz, zint(args[1], self, p))
+                        p.ref_written = getattr(p, 'ref_written', []) + [kz]
+                        return IntV(S.ref[kz])
                     S.ref = Store(S.ref, kz, If(S.dom[kz], S.ref[kz], zint(args[1], self, p)))
                     return IntV(S.ref[kz])
                 raise Unsupported(f'{fld}.{meth}@{e.lineno}')
@@ -1324,9 +1334,17 @@ class Exec:
             tag = {DictV: 'dict', SetV: 'set'}.get(type(a_))
             if tag and f'{qual}:{tag}' in self.reg:
                 qual = f'{qual}:{tag}'
+        qual = getattr(self, 'call_override', {}).get(qual, qual)
         if qual not in self.reg:
             raise Unsupported(f'call to {qual}@{e.lineno}: no contract for this argument kind')
         c = self.reg[qual]
+        if getattr(c, 'entry_ref_empty', False):
+            # the callee is specified for a manager whose `_ref` table is literally empty (constructor)
+            if not getattr(p, 'ref_empty', False):
+                raise Unsupported(f'{qual} needs an empty _ref table@{e.lineno}')
+            p.ref_empty = False
+        elif getattr(p, 'ref_empty', False) and any(isinstance(a_, MgrV) for a_ in args):
+            raise Unsupported(f'call with an empty _ref table@{e.lineno}')
         self.calls.append(qual)
         line = e.lineno
         # bind parameters
@@ -1699,6 +1717,33 @@ class Exec:
                 if tgt.attr == '_ite_table' and isinstance(val, DictV):
                     S.ch = K(Fork, BoolVal(False))
                     return
+                if isinstance(val, DictV) and getattr(val, 'fresh_empty', False):
+                    # `self.<table> = dict()`: the whole table is replaced by an empty one
+                    if tgt.attr == '_pred':
+                        S.ph = K(Fork, BoolVal(False))
+                        return
+                    if tgt.attr == '_succ':
+                        S.dom = K(I, BoolVal(False))
+                        S.nsucc = IntVal(0)
+                        return
+                    if tgt.attr == '_ref':
+                        # `_ref` has the keys of `_succ` in the model; a literally empty table is tracked on the path until
+                        # the keys agree again (only the constructor does this)
+                        p.ref_empty = True
+                        p.ref_written = []
+                        return
+                    if tgt.attr == 'vars':
+                        S.vin = K(M.Name, BoolVal(False))
+                        S.nvars = IntVal(0)
+                        return
+                    if tgt.attr == '_level_to_var':
+                        S.lin = K(I, BoolVal(False))
+                        return
+                if tgt.attr == 'max_nodes':
+                    S.maxnodes = zint(val, self, p)
+                    return
+                if tgt.attr == 'roots':
+                    return              # a plain attribute that no operation of the library reads
                 raise Unsupported(f'assign attr {tgt.attr}@{line}')
             base = self.ev(tgt.value, p)
             if isinstance(base, ObjV):
@@ -1969,8 +2014,23 @@ class Exec:
         return out
 
     def st_For(self, st, p):
-        k, spec = self.loop_spec(st)
         it = st.iter
+        if isinstance(it, ast.Call) and isinstance(it.func, ast.Attribute) and it.func.attr == 'items' and not it.args:
+            # iteration over the items of a dict that is provably empty on this path: the loop does not run
+            try:
+                dv = self.ev(it.func.value, p)
+            except Unsupported:
+                dv = None
+            if isinstance(dv, DictV):
+                from z3 import Solver, unsat, Const as _C
+                kq = _C(f'k!empty{next(M._cnt)}', dv.has.sort().domain())
+                sv = Solver()
+                sv.set('timeout', 3000)
+                sv.add(*p.pc)
+                sv.add(dv.has[kq])
+                if sv.check() == unsat:
+                    return [p]
+        k, spec = self.loop_spec(st)
         if isinstance(it, ast.Call) and isinstance(it.func, ast.Name) and it.func.id == 'range' and len(it.args) == 2:
             lo_, hi_ = [zint(self.ev(a, p), self, p) for a in it.args]
             elem = lambda iv: IntV(iv)  # noqa
